@@ -83,8 +83,16 @@ TOLERANCES = {
                       'tolerance divided by the number of cells',
 }
 ASSUMPTIONS = [
-    'offsets lie in the documented legal range 0..|new-old| (0 for unchanged '
-    'axes); negative offsets and offsets on unchanged axes are not generated',
+    'offsets lie in the documented legal range 0..|new-old| on axes that '
+    'change; on an unchanged axis nothing is added or removed, so a non-zero '
+    'entry there (as produced by a scalar offset broadcast to all axes) is '
+    'accepted and the axis is fully overlapping (what the unchanged library '
+    'does; the docstring defines offset as "entries added to / removed from '
+    'the left"); negative offsets are not generated',
+    'a ResizingOperator whose range dtype differs from the domain dtype '
+    '(discr_kwargs={"dtype": ..} or explicit range): widening pairs only '
+    '(int64->float/complex, float32->float64/complex, float64->complex128); '
+    'values, pad constant and castability are judged in the range dtype',
     'data finite; integer data in -20..20 (no overflow is asserted)',
     'pad_const castability is judged by value ("safe cast" of a Python '
     'scalar), as numpy.can_cast does in NumPy 1.x',
@@ -129,17 +137,26 @@ MAX_IN, MAX_OUT = 220, 420
 # generators
 
 def _adesc(old, new, off, mode, c, dtype, order='C', out='none',
-           out_dtype='same', offset_none=False, seed=0):
+           out_dtype='same', offset_none=False, seed=0, offset_scalar=False):
     return {'kind': 'array', 'old': list(old), 'new': list(new),
-            'offset': list(off), 'offset_none': offset_none, 'mode': mode,
+            'offset': list(off), 'offset_none': offset_none,
+            'offset_scalar': offset_scalar, 'mode': mode,
             'pad_const': c, 'dtype': dtype, 'order': order, 'out': out,
             'out_dtype': out_dtype, 'seed': seed}
+
+
+def _enum_offsets(n_old, n_new, extra=(1, 2)):
+    """Legal offsets; on an unchanged axis nothing is added or removed, a
+    non-zero entry there (e.g. from a broadcast scalar offset) is accepted
+    and the axis is fully overlapping."""
+    offs = P.legal_offsets(n_old, n_new)
+    return offs + list(extra) if n_old == n_new else offs
 
 
 def enumerate_cases(tier):
     for n_old in range(0, 7):
         for n_new in range(0, 10):
-            for off in P.legal_offsets(n_old, n_new):
+            for off in _enum_offsets(n_old, n_new):
                 for mode in P.MODES:
                     consts = [0, 1, 2.5, 1j] if mode == 'constant' else [0, 1]
                     for c in consts:
@@ -150,7 +167,8 @@ def enumerate_cases(tier):
         return
     for old in itertools.product(range(0, 4), repeat=2):
         for new in itertools.product(range(0, 6), repeat=2):
-            offs = [P.legal_offsets(o, n) for o, n in zip(old, new)]
+            offs = [_enum_offsets(o, n, extra=(2,))
+                    for o, n in zip(old, new)]
             for off in itertools.product(*offs):
                 for mode in P.MODES:
                     consts = [0, 1] if mode == 'constant' else [0]
@@ -164,8 +182,18 @@ def _f32(x):
 
 
 @st.composite
-def _pad_const(draw, dtype, mode, castable_only=False):
+def _pad_const(draw, dtype, mode, castable_only=False, wide_for=None):
     kind = np.dtype(dtype).kind
+    if wide_for is not None and mode == 'constant' and draw(st.booleans()):
+        # a constant of the range's kind that the (narrower) domain dtype
+        # ``wide_for`` cannot represent
+        if kind == 'c' and np.dtype(wide_for).kind != 'c':
+            return complex(draw(st.floats(-4, 4).map(_f32)),
+                           draw(st.sampled_from([1.0, -2.5, 0.5])))
+        if wide_for == 'int64':
+            return draw(st.sampled_from([0.5, -2.5, 0.1]))
+        return draw(st.sampled_from([0.1, 0.3, -1.0 / 3]) |
+                    st.floats(-50, 50))
     classes = (['zero', 'zero', 'int', 'float', 'complex']
                if mode == 'constant' else ['zero', 'zero', 'zero', 'int'])
     if castable_only:
@@ -195,7 +223,8 @@ def _axis(draw, max_old=7, max_new=7, min_size=0, regime=None):
         regime = draw(st.sampled_from(['grow', 'grow', 'grow_big']))
     if regime == 'same':
         n = draw(st.integers(min_size, max_old))
-        return n, n, 0
+        # a non-zero offset entry on an unchanged axis must be ignored
+        return n, n, draw(st.sampled_from([0, 0, 1, 2, 3]))
     if regime == 'shrink':
         n_old = draw(st.integers(max(1, min_size + 1), max_old))
         n_new = draw(st.integers(min_size, n_old - 1))
@@ -228,8 +257,28 @@ def _axes(draw, nd, kw):
 def _array_case(draw):
     nd = draw(st.sampled_from([1, 2, 2, 3, 3]))
     cap = {1: 7, 2: 7, 3: 6}[nd]
-    axes = _axes(draw, nd, dict(max_old=cap,
-                                max_new=cap + (3 if nd == 1 else 1)))
+    scalar = nd >= 2 and draw(st.integers(0, 4)) == 0
+    if scalar:
+        # one scalar offset k broadcast to all axes: unchanged axes, axes
+        # growing by >= k and axes shrinking by >= k
+        k = draw(st.integers(1, 3))
+        axes = []
+        for i in range(nd):
+            reg = draw(st.sampled_from(['same', 'grow', 'grow', 'shrink'])) \
+                if i else 'same'
+            if reg == 'same':
+                n = draw(st.integers(0, cap))
+                axes.append((n, n, k))
+            elif reg == 'grow':
+                n = draw(st.integers(0, cap - k))
+                axes.append((n, n + k + draw(st.integers(0, 2)), k))
+            else:
+                n = draw(st.integers(0, cap - k))
+                axes.append((n + k + draw(st.integers(0, 2)), n, k))
+        axes = draw(st.permutations(axes))
+    else:
+        axes = _axes(draw, nd, dict(max_old=cap,
+                                    max_new=cap + (3 if nd == 1 else 1)))
     old = [a[0] for a in axes]
     new = [a[1] for a in axes]
     off = [a[2] for a in axes]
@@ -244,7 +293,8 @@ def _array_case(draw):
                   order=draw(st.sampled_from(['C', 'F', 'strided'])),
                   out=out, out_dtype=out_dtype,
                   offset_none=draw(st.booleans()) and not any(off),
-                  seed=draw(st.integers(0, 2 ** 31 - 1)))
+                  seed=draw(st.integers(0, 2 ** 31 - 1)),
+                  offset_scalar=scalar)
 
 
 @st.composite
@@ -306,12 +356,28 @@ def _op_case(draw):
     if how == 'range' and dtype != 'int64' and draw(st.integers(0, 2)) == 0:
         # explicit range carrying its own constant weighting
         ran_weighting = draw(st.sampled_from([2.0, 0.5, 3.0]))
+    # range dtype different from (wider than) the domain dtype, either via
+    # discr_kwargs={'dtype': ..} or through the explicit range
+    ran_dtype = None
+    if draw(st.integers(0, 3)) == 0:
+        ran_dtype = draw(st.sampled_from(
+            {'int64': ['float64', 'float32', 'complex128'],
+             'float32': ['float64', 'complex64', 'complex128'],
+             'float64': ['complex128'],
+             'complex128': ['complex128']}[dtype]))
+        if ran_dtype == dtype:
+            ran_dtype = None
+        else:
+            weighting = ran_weighting = None
     return {'kind': 'op', 'shape': shape, 'min': mins, 'cell': cells,
             'dtype': dtype, 'nob': nob, 'weighting': weighting,
-            'ran_weighting': ran_weighting,
+            'ran_weighting': ran_weighting, 'ran_dtype': ran_dtype,
             'ran_shp': ran_shp, 'how': how, 'offset': offsets,
             'discr_kwargs': dk, 'mode': mode,
-            'pad_const': draw(_pad_const(dtype, mode, castable_only=True)),
+            'pad_const': draw(_pad_const(ran_dtype or dtype, mode,
+                                         castable_only=True,
+                                         wide_for=dtype if ran_dtype
+                                         else None)),
             'op_out': draw(st.booleans()),
             'seed': draw(st.integers(0, 2 ** 31 - 1))}
 
@@ -381,9 +447,12 @@ def _order1_growth(old, new, off):
 # resize_array
 
 def _call_resize(arr, newshp, off, mode, c, direction, out, sig, offset_none):
-    """Call the function under test; returns (result | None, raised)."""
+    """Call the function under test; returns (result | None, raised).
+    ``offset_none == 'scalar'`` passes the common offset as one integer."""
     kwargs = dict(pad_mode=mode, pad_const=c, direction=direction)
-    if not offset_none:
+    if offset_none == 'scalar':
+        kwargs['offset'] = int(off[0])
+    elif not offset_none:
         kwargs['offset'] = list(off)
     if out is not None:
         kwargs['out'] = out
@@ -413,6 +482,8 @@ def _run_array(desc):
                                else 'float')
     sig = 'C16|{}|resize_array|' + region
     offset_none = bool(desc.get('offset_none')) and not any(off)
+    if desc.get('offset_scalar') and len(set(off)) == 1:
+        offset_none = 'scalar'
     in_size = int(np.prod(old, dtype=int))
     out_size = int(np.prod(new, dtype=int))
 
@@ -459,12 +530,17 @@ def _run_array(desc):
     if not np.array_equal(x, xin) or not _bits_equal(x, xin):
         raise Violation(sig.format('input-modified'), 'forward changed arr')
     fwd_ok = why is None
+    same_off = any(a == b_ and o_ != 0 for a, b_, o_ in zip(old, new, off))
     strata = ['array|' + mode, 'array|shape:' + shape_reg,
               'array|ndim:{}'.format(nd), 'array|dtype:' + desc['dtype'],
               'array|order:' + desc['order'], 'array|out:' + okind,
               'array|cfg:{}|{}'.format(mode, shape_reg)]
     if okind != 'none':
         strata.append('array|out_dtype:' + desc['out_dtype'])
+    if same_off:
+        strata.append('array|offset-on-unchanged-axis')
+    if offset_none == 'scalar':
+        strata.append('array|offset:scalar')
     if not fwd_ok:
         strata.append('array|rejected:' + why)
         notes['forward_rejected'] += 1
@@ -646,13 +722,21 @@ def _sides(nob, nd):
     return [(bool(p[0]), bool(p[1])) for p in nob]
 
 
-def _realify(M, off, cplx):
+def _realify(M, off, cplx, cplx_dom=None):
+    """Real-ified matrix / offset as ``flat.opmatrix`` sees them; ``cplx``:
+    the range is complex, ``cplx_dom``: the domain is (default: like the
+    range).  A real domain mapped into a complex range fills real parts."""
     M = np.asarray(M, dtype=float)
+    cplx_dom = cplx if cplx_dom is None else cplx_dom
     if not cplx:
+        if cplx_dom:
+            raise HarnessError('complex -> real operator')
         return M, np.real(np.asarray(off)).astype(float)
     offc = np.asarray(off).astype(complex)
-    return np.kron(M, np.eye(2)), np.stack([offc.real, offc.imag],
-                                           axis=-1).ravel()
+    offr = np.stack([offc.real, offc.imag], axis=-1).ravel()
+    if cplx_dom:
+        return np.kron(M, np.eye(2)), offr
+    return np.kron(M, np.array([[1.0], [0.0]])), offr
 
 
 def _matrix_of(op, sig):
@@ -670,6 +754,9 @@ def _run_op(desc):
     dt = np.dtype(dtype)
     cplx = dt.kind == 'c'
     isint = dt.kind in 'iu'
+    rdt = np.dtype(desc.get('ran_dtype') or dtype)     # dtype of the range
+    rcplx = rdt.kind == 'c'
+    rint = rdt.kind in 'iu'
     mode, c = desc['mode'], desc['pad_const']
     notes = collections.Counter()
     deferred = []       # violations in known-finding regions, raised last
@@ -723,7 +810,7 @@ def _run_op(desc):
             num_l = eff[i] if d > 0 else -eff[i]
             rmin.append(mins[i] - num_l * dxs[i])
             rmax.append(maxs[i] + (d - num_l) * dxs[i])
-        rsd = dict(sd, min=rmin, max=rmax, shape=ran_shp)
+        rsd = dict(sd, min=rmin, max=rmax, shape=ran_shp, dtype=str(rdt))
         if desc.get('ran_weighting') is not None:
             rsd['weighting'] = {'type': 'const',
                                 'value': desc['ran_weighting']}
@@ -738,6 +825,8 @@ def _run_op(desc):
             kwargs['discr_kwargs'] = {
                 'nodes_on_bdry': nb if isinstance(nb, bool)
                 else [tuple(p) for p in nb]}
+        if rdt != dt:
+            kwargs.setdefault('discr_kwargs', {})['dtype'] = str(rdt)
         op = odl.ResizingOperator(dom, ran_shp=tuple(ran_shp), **kwargs)
         ran = op.range
 
@@ -753,7 +842,7 @@ def _run_op(desc):
     # ---- structure -----------------------------------------------------------
     if op.domain != dom:
         raise Violation('C16|op-structure|' + sigt, 'domain changed')
-    if tuple(op.range.shape) != tuple(ran_shp) or op.range.dtype != dt:
+    if tuple(op.range.shape) != tuple(ran_shp) or op.range.dtype != rdt:
         raise Violation('C16|op-structure|' + sigt,
                         'range shape/dtype {} {}'.format(op.range.shape,
                                                          op.range.dtype))
@@ -820,7 +909,14 @@ def _run_op(desc):
             else:
                 raise v
 
-    # ---- linearity flag --------------------------------------------------------
+    # ---- stored constant (in the dtype of the range) and linearity flag -----
+    c_ran = np.array(c, dtype=rdt)
+    pc = np.asarray(op.pad_const)
+    if pc.shape != () or pc.dtype != rdt or not _bits_equal(pc, c_ran):
+        raise Violation('C16|pad_const|ResizingOperator|' +
+                        ('dtype-differs' if rdt != dt else 'same-dtype'),
+                        'op.pad_const = {!r} ({}), given {!r}, range dtype {}'
+                        ''.format(op.pad_const, pc.dtype, c, rdt))
     affine = mode == 'constant' and c != 0
     if bool(op.is_linear) != (not affine):
         raise Violation('C16|is-linear|ResizingOperator|' +
@@ -842,18 +938,21 @@ def _run_op(desc):
                                     else ('nob' if any(
                                         a or b for a, b in rsides)
                                         else 'plain')),
+              'op|ran_dtype:' + ('same' if rdt == dt else
+                                 '{}->{}'.format(dt.kind, rdt.kind)),
               'op|weighting:' + ('differ' if wdiff else
                                  ('const' if desc['weighting'] is not None
                                   else 'default')),
               'op|cfg:{}|{}'.format(mode, shape_reg)]
-    why = P.violated_precondition(shape, ran_shp, eff, mode, c, dt,
+    why = P.violated_precondition(shape, ran_shp, eff, mode, c, rdt,
                                   'forward')
     x_arr = _data(shape, dt, desc['seed'])
     x = dom.element(x_arr)
+    x_ran = x_arr.astype(rdt)          # the values in the dtype of the range
     try:
         if desc['op_out']:
             out = op.range.element()
-            out.asarray()[...] = 77 if isint else np.nan
+            out.asarray()[...] = 77 if rint else np.nan
             y = op(x, out=out)
             if y is not out:
                 raise Violation('C16|out-identity|' + sigt,
@@ -880,11 +979,14 @@ def _run_op(desc):
         raise Violation('C16|space|' + sigt, 'result not in range')
     if not _bits_equal(x.asarray(), x_arr):
         raise Violation('C16|input-modified|' + sigt, 'x was modified')
-    cast_c = np.asarray(c).astype(dt) if mode == 'constant' else 0
-    ref = P.resize(x_arr, ran_shp, eff, mode, cast_c)
+    cast_c = np.asarray(c).astype(rdt) if mode == 'constant' else 0
+    ref = P.resize(x_ran, ran_shp, eff, mode, cast_c)
     yv = y.asarray()
-    if mode == 'order1' and not isint:
-        tol = 4 * np.finfo(dt).eps * _order1_growth(shape, ran_shp, eff) * \
+    if yv.dtype != rdt:
+        raise Violation('C16|shape-dtype|' + sigt,
+                        'result dtype {} expected {}'.format(yv.dtype, rdt))
+    if mode == 'order1' and not rint:
+        tol = 4 * np.finfo(rdt).eps * _order1_growth(shape, ran_shp, eff) * \
             float(np.abs(x_arr).max(initial=0))
         bad = ~(np.abs(yv - ref) <= tol)
     else:
@@ -896,11 +998,11 @@ def _run_op(desc):
                         ''.format(shape, ran_shp, eff, idx, yv[idx],
                                   ref[idx]))
     bo, bn = P.block_slices(shape, ran_shp, eff)
-    if not _bits_equal(yv[bn], x_arr[bo]):
+    if not _bits_equal(yv[bn], x_ran[bo]):
         raise Violation('C16|block|' + sigt, 'block not bit-identical')
 
     M, b = P.matrix(shape, ran_shp, eff, mode)
-    ref_M, ref_off = _realify(M, b * cast_c, cplx)
+    ref_M, ref_off = _realify(M, b * cast_c, rcplx, cplx)
     got_M, got_off = _matrix_of(op, 'C16|forward-matrix|' + sigt)
     if not (np.array_equal(got_M, ref_M) and
             np.array_equal(got_off, ref_off)):
@@ -945,7 +1047,7 @@ def _run_op(desc):
     elif shape_reg == 'shrink':
         why_inv = P.violated_precondition(ran_shp, shape, eff, mode, c, dt,
                                           'forward')
-        if why_inv is None:
+        if why_inv is None and rdt == dt:
             yb = op(inv(y))
             if not _bits_equal(yb.asarray(), yv):
                 raise Violation('C16|inverse|' + sigt,
@@ -987,7 +1089,7 @@ def _run_op(desc):
     # below decides whether the multiple is right.  Everywhere else (and on
     # a library that ignores the weightings) it is the exact transpose.
     exact = not np.any(noff) and np.array_equal(N, ref_M.T)
-    if not exact and desc['how'] == 'range' and not isint:
+    if not exact and desc['how'] == 'range' and not isint and rdt == dt:
         dom_w = desc['weighting'] if desc['weighting'] is not None \
             else float(np.prod(dxs))
         ran_w = desc.get('ran_weighting')
@@ -1008,7 +1110,7 @@ def _run_op(desc):
                             float(np.abs(N - ref_M.T).max(initial=0))))
     strata.append('op|adjoint-evaluated')
     nontriv = nontriv or shape_reg != 'same'
-    if not isint:
+    if not isint and not rint and rcplx == cplx:
         GX, GY = flat.gram(op.domain), flat.gram(op.range)
         lhs, rhs = N.T @ GX, GY @ got_M
         scale = max(np.abs(lhs).max(initial=0), np.abs(rhs).max(initial=0),
@@ -1019,7 +1121,8 @@ def _run_op(desc):
         geom = 8 * feps * sum(
             (abs(float(op.range.min_pt[i])) + abs(float(op.range.max_pt[i])))
             / dxs[i] for i in np.arange(nd)) if desc['how'] == 'range' else 0
-        if not defect <= 64 * np.finfo(dt).eps + geom:
+        if not defect <= 64 * max(np.finfo(dt).eps,
+                                  np.finfo(rdt).eps) + geom:
             v = Violation('C16|gram|' + sigt,
                           '<Ax,y>_ran != <x,A*y>_dom: Gram defect {:.3g} '
                           'for {} -> {} offset {} (domain nodes_on_bdry '
@@ -1063,4 +1166,6 @@ REQUIRED_STRATA = (
      'op|offset:none', 'op|offset:partial', 'op|dom_nob:yes',
      'op|discr_kwargs:nob', 'op|discr_kwargs:plain', 'op|weighting:const',
      'op|weighting:differ',
-     'op|affine', 'op|adjoint-evaluated', 'op|gram:plain'])
+     'op|affine', 'op|adjoint-evaluated', 'op|gram:plain',
+     'array|offset-on-unchanged-axis', 'array|offset:scalar',
+     'op|ran_dtype:i->f', 'op|ran_dtype:f->f', 'op|ran_dtype:f->c'])
